@@ -271,9 +271,52 @@ func extractLogLine(p *pkgs, f *facts) {
 	}
 	f.lean = append(f.lean, fmt.Sprintf("def stderrReader : LogLine.ReaderParams := ⟨%s, %s, %s⟩", leanBool(endsOnRead), leanBool(readsFromStart), leanBool(inGroup)))
 	f.set("stderrReader", map[string]interface{}{"endsOnlyOnReadError": endsOnRead, "readsFromStart": readsFromStart, "waitedBeforeProcWait": inGroup})
-	f.lean = append(f.lean, fmt.Sprintf("def logline : LogLine.Params := ⟨%s, %d⟩", leanBool(checked), defBuf))
+	// kvAllKept: parseJSON's `for k, v := range raw` body is the single unconditional append of a logEntryKV{Key: k, Value: v};
+	// flattenKVPairs' loop body consists of unconditional appends mentioning kv.Key and kv.Value only
+	kvAll := false
+	{
+		okParse, okFlat := false, false
+		if pj := p.fn("", "parseJSON"); pj != nil {
+			ast.Inspect(pj.Body, func(n ast.Node) bool {
+				rs, ok := n.(*ast.RangeStmt)
+				if !ok || exprString(rs.X) != "raw" {
+					return true
+				}
+				if len(rs.Body.List) == 1 {
+					if as, ok := rs.Body.List[0].(*ast.AssignStmt); ok && len(as.Rhs) == 1 && strings.HasPrefix(exprString(as.Rhs[0]), "append(entry.KVPairs,") {
+						okParse = true
+					}
+				}
+				return true
+			})
+		}
+		if fl := p.fn("", "flattenKVPairs"); fl != nil {
+			ast.Inspect(fl.Body, func(n ast.Node) bool {
+				rs, ok := n.(*ast.RangeStmt)
+				if !ok {
+					return true
+				}
+				okFlat = len(rs.Body.List) >= 1
+				keySeen, valSeen := false, false
+				for _, st := range rs.Body.List {
+					as, ok := st.(*ast.AssignStmt)
+					if !ok || len(as.Rhs) != 1 || !strings.HasPrefix(exprString(as.Rhs[0]), "append(") {
+						okFlat = false
+						continue
+					}
+					r := exprString(as.Rhs[0])
+					keySeen = keySeen || strings.Contains(r, ".Key")
+					valSeen = valSeen || strings.Contains(r, ".Value")
+				}
+				okFlat = okFlat && keySeen && valSeen
+				return true
+			})
+		}
+		kvAll = okParse && okFlat
+	}
+	f.lean = append(f.lean, fmt.Sprintf("def logline : LogLine.Params := ⟨%s, %d, %s⟩", leanBool(checked), defBuf, leanBool(kvAll)))
 	f.lean = append(f.lean, fmt.Sprintf("def drain : Scanner.DrainParams := ⟨%d, %s, %s⟩", maxToken, leanBool(drainsLines), leanBool(drainsAfterErr)))
-	f.set("logline", map[string]interface{}{"checkedAssertions": checked, "defaultBuf": defBuf})
+	f.set("logline", map[string]interface{}{"checkedAssertions": checked, "defaultBuf": defBuf, "kvAllKept": kvAll})
 	f.set("drain", map[string]interface{}{"maxToken": maxToken, "drainsLines": drainsLines, "drainsAfterScannerError": drainsAfterErr})
 }
 
